@@ -175,9 +175,26 @@ class IO:
         spec = op.get("subset")
         if not spec:
             return None
-        if spec == "all":
-            sim.count("io_subset_all")
-            return set(sim.tracks.graph.nodes)
+        if isinstance(spec, str):
+            # group selections (large subsets)
+            g = sim.tracks.graph
+            sim.count("io_subset_" + spec)
+            nodes = sorted(g.nodes)
+            if spec == "all":
+                out = set(nodes)
+            elif spec == "leaves":
+                out = {n for n in nodes if g.out_degree(n) == 0}
+            elif spec == "roots":
+                out = {n for n in nodes if g.in_degree(n) == 0}
+            elif spec == "not_roots":
+                out = {n for n in nodes if g.in_degree(n) > 0}
+            elif spec == "odd":
+                out = set(nodes[1::2])
+            else:  # last_frame
+                tk = sim.tracks.features.time_key
+                tmax = max((g.nodes[n][tk] for n in nodes), default=None)
+                out = {n for n in nodes if g.nodes[n][tk] == tmax}
+            return out or None
         cl = sim.node_classes()
         out = set()
         for sel in spec:
